@@ -555,7 +555,7 @@ class Moment:
 
     @classmethod
     def _from_json_dict_(cls, operations, tags=(), **kwargs):
-        return cls(*operations, tags=tags)
+        return cls(*operations, tags=raw_types._tags_from_json(tags))
 
     def __add__(self, other: cirq.OP_TREE) -> cirq.Moment:
         if isinstance(other, circuit.AbstractCircuit):
